@@ -4,21 +4,24 @@ from kinds import (closure_capture, enclosing_loop, ident, must_pass, origin, re
 from c03 import err_blocks, find_increment, ok_dominates, on_every_ok_path, propagated
 
 EXPLANATION = (
-    "Decided statically on the MIR of the evaluation step and the evaluators: (R1) PopulationEvaluator::execute hands "
-    "the WHOLE population it popped (same object, no slicing/adapters) to Evaluate::evaluate exactly once, obtained "
-    "through holding::<Evaluator<P, I>> with its own identifier I; on the Ok continuation it adds exactly "
-    "`population.len()` of that same vector to Evaluations at exactly one site outside any loop, and pushes that same "
-    "vector back on every Ok path; (R2) K6 on every Evaluate implementation over slices of 0..4 individuals (evaluated / "
+    "Decided statically on the MIR of the evaluation step and the evaluators: (R1, K6 with the real population stack, "
+    "`holding` an oracle that runs the component's closure on the held evaluator, Evaluate::evaluate an oracle recording "
+    "what it is given; stacks of 0..2 populations, top population of 0..3 individuals, evaluator present / absent) "
+    "PopulationEvaluator::execute hands the WHOLE top population - same individuals, same order - to the held "
+    "Evaluator<P, I> of its own identifier exactly once, advances Evaluations by exactly its length exactly when that "
+    "succeeded, leaves the stack as it was, is a no-op on an empty stack and an Err when the evaluator is absent; "
+    "(R2) K6 on every Evaluate implementation over slices of 0..4 individuals (evaluated / "
     "unevaluated mixed, distinct opaque solutions) with the objective function an oracle recording its calls: afterwards "
     "the same individuals in the same order carry f(own solution) and the objective was called exactly once per "
     "individual (rayon's par_iter_mut/for_each modelled as the sequential visit; chunking / skipping / filtering "
     "adapters are modelled exactly by the collection model); (R3) every call site of "
     "Evaluate::evaluate in the crate is followed on its Ok continuation by an increment of Evaluations equal to the "
     "length of the slice it evaluated (len() of the same vector, or the constant 1 for a one-element slice); "
-    "(R4) require() demands Populations<P> and Evaluator<P, I> for the same I that execute uses; optimize() registers "
-    "Evaluator<P, Global>; the builder's evaluate() constructs PopulationEvaluator<Global>; (R5) any Scope a template "
-    "builds around an evaluating body merges the inner Evaluations counter back. NOT decided: the numeric budget "
-    "overshoot bound; thread-safety of user objective functions.")
+    "(R4, K6 with instantiated type parameters) require() is Ok iff Populations<P> and Evaluator<P, I> of the "
+    "component's own I are present; optimize() registers Evaluator<P, Global>; the builder's evaluate() / "
+    "evaluate_with::<I>() append exactly one PopulationEvaluator<Global> / <I>; init inserts Evaluations(0); (R5) any "
+    "Scope a template builds around an evaluating body merges the inner Evaluations counter back. NOT decided: the "
+    "numeric budget overshoot bound; thread-safety of user objective functions.")
 ASSUMPTIONS = ["rayon's par_iter_mut().for_each visits every element exactly once"]
 
 EVAL = "mahf::problems::evaluate::Evaluate::evaluate"
